@@ -17,6 +17,7 @@ PROP_MODULES = {
     "C08": ["contracts.c08"],
     "C16": ["contracts.c16", "contracts.c16_bounded"],
     "C10": ["contracts.c10"],
+    "C17": ["contracts.c17", "contracts.c05", "contracts.c17_bounded"],
     "C18": ["contracts.c18", "contracts.c18_bounded"],
 }
 
